@@ -108,6 +108,9 @@ pub enum Shape {
     Packets(usize),
     /// harness packet source (packets of these sizes) -> VecToStream -> sink
     VecPackets(Vec<usize>),
+    /// Like Packets(k), with StreamToPdu's `tail` set and bursts `tail + 1`
+    /// samples further apart: (k, tail).
+    PacketsTail(usize, usize),
 }
 
 #[derive(Clone, Debug, PartialEq)]
@@ -134,6 +137,7 @@ impl GraphSpec {
             Shape::Diamond(a, b) => json!({"diamond": [a.as_ref().map(|s| s.to_json()), b.as_ref().map(|s| s.to_json())]}),
             Shape::Merge(n) => json!({"merge": n}),
             Shape::Packets(k) => json!({"packets": k}),
+            Shape::PacketsTail(k, t) => json!({"packets_tail": [k, t]}),
             Shape::VecPackets(v) => json!({"vecpackets": v}),
         };
         json!({"shape": shape, "per_page": self.per_page, "pages": self.pages, "src_len": self.src_len, "order": self.order,
@@ -149,6 +153,7 @@ impl GraphSpec {
             "diamond" => Shape::Diamond(opt(&x[0]), opt(&x[1])),
             "merge" => Shape::Merge(x.as_u64().unwrap() as usize),
             "packets" => Shape::Packets(x.as_u64().unwrap() as usize),
+            "packets_tail" => Shape::PacketsTail(x[0].as_u64().unwrap() as usize, x[1].as_u64().unwrap() as usize),
             "vecpackets" => Shape::VecPackets(x.as_array().unwrap().iter().map(|y| y.as_u64().unwrap() as usize).collect()),
             _ => panic!("shape {k}"),
         };
@@ -169,7 +174,7 @@ impl GraphSpec {
             Shape::Tee(a, b) => 4 + a.is_some() as usize + b.is_some() as usize,
             Shape::Diamond(a, b) => 4 + a.is_some() as usize + b.is_some() as usize,
             Shape::Merge(_) => 4,
-            Shape::Packets(_) => 5,
+            Shape::Packets(_) | Shape::PacketsTail(..) => 5,
             Shape::VecPackets(_) => 3,
         }
     }
@@ -200,6 +205,7 @@ impl GraphSpec {
             }
             Shape::Merge(_) => false,
             Shape::Packets(k) => *k > self.per_page * self.pages,
+            Shape::PacketsTail(k, t) => *k + *t > self.per_page * self.pages,
             Shape::VecPackets(v) => v.iter().any(|k| *k > self.per_page * self.pages),
         }
     }
@@ -244,6 +250,35 @@ impl GraphSpec {
                     for _ in 0..*k {
                         out.push(n);
                         n += 1;
+                    }
+                }
+                vec![out]
+            }
+            Shape::PacketsTail(k, tail) => {
+                // The StreamToPdu automaton, run over the whole input at
+                // once: a burst starts on the start-marked sample, the
+                // end-marked sample is not part of it, the `tail` samples
+                // after that are, and the packet goes out when the sample
+                // after the tail arrives.
+                let period = k + 2 + tail;
+                let mut out = vec![];
+                let mut buf: Vec<u64> = vec![];
+                let mut endc: Option<usize> = None;
+                for (i, s) in src.iter().enumerate() {
+                    let ph = i % period;
+                    if endc == Some(0) {
+                        out.append(&mut buf);
+                        endc = None;
+                    }
+                    if let Some(c) = endc {
+                        buf.push(*s);
+                        endc = Some(c - 1);
+                    } else if ph == 0 {
+                        buf.push(*s);
+                    } else if ph == *k {
+                        endc = Some(*tail);
+                    } else if !buf.is_empty() {
+                        buf.push(*s);
                     }
                 }
                 vec![out]
@@ -429,6 +464,17 @@ pub fn build<T: BigT>(g: &GraphSpec) -> Built<T> {
             blocks.push(Box::new(s1));
         }
         Shape::VecPackets(_) => unreachable!(),
+        Shape::PacketsTail(k, tail) => {
+            let (mark, o) = MarkBursts::with_period(prev, *k, k + 2 + tail);
+            blocks.push(Box::new(mark));
+            let (s2p, po) = StreamToPdu::new(o, "burst", 1000, *tail);
+            blocks.push(Box::new(s2p));
+            let (v2s, o) = VecToStream::new(po);
+            blocks.push(Box::new(v2s));
+            let s1 = VectorSink::new(o, SINK_MAX);
+            sinks.push(s1.hook());
+            blocks.push(Box::new(s1));
+        }
         Shape::Packets(k) => {
             let (mark, o) = MarkBursts::new(prev, *k);
             blocks.push(Box::new(mark));
@@ -532,13 +578,18 @@ pub struct MarkBursts<T: Copy> {
     src: ReadStream<T>,
     dst: WriteStream<T>,
     k: usize,
+    period: usize,
     pos: usize,
 }
 
 impl<T: Copy> MarkBursts<T> {
     pub fn new(src: ReadStream<T>, k: usize) -> (Self, ReadStream<T>) {
+        Self::with_period(src, k, k + 1)
+    }
+    /// Bursts of `k` samples every `period` samples.
+    pub fn with_period(src: ReadStream<T>, k: usize, period: usize) -> (Self, ReadStream<T>) {
         let (dst, r) = rustradio::stream::new_stream();
-        (Self { src, dst, k, pos: 0 }, r)
+        (Self { src, dst, k, period, pos: 0 }, r)
     }
 }
 
@@ -569,7 +620,7 @@ impl<T: Copy> Block for MarkBursts<T> {
         let mut tags = vec![];
         for j in 0..n {
             o.slice()[j] = i.slice()[j];
-            let ph = (self.pos + j) % (self.k + 1);
+            let ph = (self.pos + j) % self.period;
             if ph == 0 {
                 tags.push(Tag::new(j, "burst", TagValue::Bool(true)));
             } else if ph == self.k {
@@ -651,6 +702,16 @@ pub struct Instrumented {
     pub late_calls: std::sync::Arc<std::sync::atomic::AtomicUsize>,
     pub epoch: std::sync::Arc<std::sync::atomic::AtomicBool>,
     pub fail_on: Option<usize>,
+    /// Number of wrapped blocks not dropped yet. The multithreaded runner
+    /// moves each block into its thread, so this counts block threads that
+    /// have not finished.
+    pub alive: std::sync::Arc<std::sync::atomic::AtomicUsize>,
+}
+
+impl Drop for Instrumented {
+    fn drop(&mut self) {
+        self.alive.fetch_sub(1, std::sync::atomic::Ordering::SeqCst);
+    }
 }
 
 impl BlockName for Instrumented {
